@@ -195,10 +195,6 @@ def present(rng, specs, shape):
     return tuple(specs)
 
 
-def is_rank1_wrap(specs, shape):
-    return len(shape) == 1 and len(specs) > 1
-
-
 # ------------------------------------------------------------------------ the validator
 
 class Timeout(Exception):
@@ -511,9 +507,10 @@ def correspondence(ctx, CU, N, NR):
             ch, sh, lim, dt = rec.levels[0]
             if all((isinstance(c, str) and c == "auto") or isinstance(c, (int, tuple)) for c in ch) and not any(isinstance(c, bool) for c in ch):
                 def fmt(r):
-                    return "ok " + f_specs(r)
+                    # compare the layout (ints expanded), not the int/tuple representation auto_chunks happens to use
+                    return "ok " + f_ll(CU._convert_int_chunk_to_tuple(sh, r))
                 aimpl = impl_call(lambda: CU.auto_chunks(ch, sh, lim, dt), fmt)
-                apairs.append((f"ck.auto {f_orc(orc)} {f_specs(ch)} {f_list(sh)}", aimpl))
+                apairs.append((f"ck.auto_layout {f_orc(orc)} {f_specs(ch)} {f_list(sh)}", aimpl))
 
     axis_specs_small = lambda n: [None, -1, 0, 1, 2, n, n + 1, -2, "auto", "auto-bytes"] + [t for t in ((n,), (1,) * n or (0,), (0, n), (n + 1,), ()) ]
     for shape in itertools.product(range(0, 4), repeat=2):
@@ -600,7 +597,7 @@ def search(ctx, CU):
     ctx.exhaustive = True
     ctx.extra["exhaustive_domain"] = (
         f"normalize_chunks: shapes of rank ≤ 2 with lengths 0..{EX} × per-axis specs {{None,-1,0,1..{EX}+1,-2,'auto','2B', every chunking of the "
-        "axis, (0,n), (n,0), (n+1,), ()}} × limit ∈ {None(config 5B),1,3,8} × dtype ∈ {int8,int32}"
+        "axis, (0,n), (n,0), (n+1,), ()}} (× limit ∈ {None(config 5B),1,3,8} × dtype ∈ {int8,int32} when an auto/byte-string axis is present)"
     )
 
     def axis_specs(n):
@@ -616,7 +613,7 @@ def search(ctx, CU):
                         go(mk_case(tuple(specs), shape, limit, dtype, config={"array.chunk-size": 5} if limit is None else None), "ex")
 
     # ---- random, all spec kinds and presentations, limit= / config, dtypes, previous_chunks
-    NS = ctx.scale(30000, 400000)
+    NS = ctx.scale(20000, 300000)
     for it in range(NS):
         r = rng.randint(1, 4)
         shape = tuple(rng.choice([0, 1, 1, 2, 3, 5, 8, 9, 13, 40, 100, 1000, 4096, 4096, 65536]) for _ in range(r))
@@ -647,7 +644,7 @@ def search(ctx, CU):
         go(mk_case(present(rng, specs, shape), shape, limit, dtype, prev, config), "rnd")
 
     # ---- previous_chunks with zero-size chunks (known class auto:limit-exceeded:prev-zero-chunk lives here)
-    for it in range(ctx.scale(3000, 40000)):
+    for it in range(ctx.scale(2000, 40000)):
         r = rng.randint(1, 3)
         shape = tuple(rng.choice([1, 2, 3, 5, 9, 13, 40]) for _ in range(r))
         specs = [rng.choice(["auto", "auto", -1, None, rng.randint(1, n)]) for n in shape]
@@ -659,7 +656,7 @@ def search(ctx, CU):
     # ---- malformed specs must raise, never return a bad layout
     mal = 0
     accepted_valid = 0
-    for it in range(ctx.scale(4000, 40000)):
+    for it in range(ctx.scale(3000, 40000)):
         r = rng.randint(1, 3)
         shape = tuple(rng.choice([0, 1, 2, 3, 5, 8, 100]) for _ in range(r))
         specs = [rng.choice([1, 2, -1, None, tuple(gen.rand_chunks(rng, n, maxparts=5))]) for n in shape]
@@ -804,7 +801,7 @@ def targeted(ctx, CU):
                         cases.append(mk_case((c, 1), (n + dn, 1)))
                         cases.append(mk_case((c, (1,)), (n + dn, 1)))
                         cases.append(mk_case({0: c}, (n + dn, 2)))
-            elif toks[0] in ("ck.norm", "ck.auto"):
+            elif toks[0] in ("ck.norm", "ck.auto_layout"):
                 if toks[0] == "ck.norm":
                     lim = None if toks[2] == "N" else int(toks[2])
                     specs = [] if toks[3] == "-" else [p_spec(t) for t in toks[3].split("/")]
